@@ -1268,10 +1268,12 @@ impl ParserListener for Screen {
                             if let (Some(r), Some(g), Some(b)) =
                                 (attrs_list.pop(), attrs_list.pop(), attrs_list.pop())
                             {
-                                replace.insert(
-                                    key.to_string(),
-                                    format!("{:02x}{:02x}{:02x}", r, g, b),
-                                );
+                                if r <= 255 && g <= 255 && b <= 255 {
+                                    replace.insert(
+                                        key.to_string(),
+                                        format!("{:02x}{:02x}{:02x}", r, g, b),
+                                    );
+                                }
                             }
                         } else {
                             // consider panicing in a strict mode
